@@ -318,18 +318,34 @@ class PartBuilder:
                 t = rng.choice(starts)
                 kind = rng.choice(["dyn", "tempo", "words", "wedge"])
                 if kind == "dyn":
-                    d = S.ConstantLoudnessDirection(rng.choice(["p", "f", "mf", "pp", "ff"]))
+                    # as the MusicXML importer builds them: class from its dynamics table, text = the tag
+                    from partitura.io.importmusicxml import DYN_DIRECTIONS
+                    tag = rng.choice(["p", "f", "mf", "pp", "ff", "sf", "fp"])
+                    d = DYN_DIRECTIONS.get(tag, S.Words)(tag, staff=None)
                     part.add(d, t)
                 elif kind == "tempo":
-                    part.add(S.Tempo(rng.choice([60, 72, 90, 120]), "q"), t)
+                    used_t = getattr(self, "_tempo_times", None)
+                    if used_t is None:
+                        used_t = self._tempo_times = set()
+                    if t not in used_t:          # one tempo indication per position
+                        used_t.add(t)
+                        part.add(S.Tempo(rng.choice([60, 72, 90, 120]), "q"), t)
                 elif kind == "words":
-                    part.add(S.Words(rng.choice(["dolce", "espressivo", "Allegro"])), t)
+                    # text directions lie in the image of the importer's direction parser
+                    from partitura.directions import parse_direction
+                    for d in parse_direction(rng.choice(["dolce", "espressivo", "Allegro", "rit.", "cresc.", "a tempo", "legato", "xyzzy"])):
+                        part.add(d, t)
                 else:
-                    later = [s for s in starts if s > t]
-                    if later:
+                    # hairpins do not overlap each other (one at a time, as on a staff)
+                    spans = getattr(self, "_wedge_spans", None)
+                    if spans is None:
+                        spans = self._wedge_spans = []
+                    later = [s for s in starts if s > t][:4]
+                    e_ = rng.choice(later) if later else None
+                    if later and all(e_ <= a or t >= b for a, b in spans):
                         cls = rng.choice([S.IncreasingLoudnessDirection, S.DecreasingLoudnessDirection])
-                        part.add(cls("crescendo" if cls is S.IncreasingLoudnessDirection else "diminuendo", wedge=True),
-                                 t, rng.choice(later))
+                        part.add(cls("crescendo" if cls is S.IncreasingLoudnessDirection else "diminuendo", wedge=True), t, e_)
+                        spans.append((t, e_))
                 self.meta["directions"] += 1
 
 
